@@ -14,3 +14,6 @@ import MidoProofs.SrcTie.Tracks
 #print axioms Mido.src_wt_loop
 #print axioms Mido.fixEot_toW
 #print axioms Mido.src_write_track
+#print axioms Mido.packI16_eq
+#print axioms Mido.src_save_loop
+#print axioms Mido.src_save
